@@ -310,6 +310,10 @@ def record_run(sc):
             if outcome["kind"] == "design":
                 g = m._search.ghe
                 g2 = copy.deepcopy(g)
+                # re-simulate with a brand-new short-time-step model, so that nothing the sizing iterations may have left in it is re-used
+                from ghedesigner.radial_numerical_borehole import RadialNumericalBH  # noqa: PLC0415
+
+                g2.radial_numerical = RadialNumericalBH(g2.bhe.to_single())
                 mx, mn = g2.simulate(method=TimestepType.HYBRID)
                 nan = any(x != x for x in g.hp_eft)
                 desc["nan_in_eft"] = nan
